@@ -4,5 +4,6 @@ CONSTANTS
   S = 3
   Ws = {0, 1, 2, 3}
   WriterTyped = {TRUE, FALSE}
+  Named = {TRUE}
 INVARIANT TypeOK
 PROPERTY Terminates
